@@ -18,6 +18,9 @@ type Case struct {
 	Kind string `json:"kind"` // str id num
 	Fill string `json:"fill"` // str/id: the value; num: the lexeme
 	DQ   bool   `json:"dq"`   // str: double-quoted spelling
+	// Bound: id holes only, plain names only: the program is preceded by lets
+	// that bind that very name (a quoted name is never a reference to a binding).
+	Bound bool `json:"bound,omitempty"`
 }
 
 func init() {
@@ -223,6 +226,7 @@ var hostile = []string{"'", "\"", "`", "\\", "-", "/", "*", ";", "(", ")", " ", 
 var idioms = []string{
 	"' OR 1=1 --", "x' , (select 1) as y, '", "*/", "/*", "\\'", "\\", "a\\", "\\\\", "\\\\'", "'; DROP TABLE t; --", "\" OR \"\"=\"", "`; `", "--", "-- x", "#", "# x",
 	"{p:String}", "$1", "?", "a\tb", "it's", "say \"hi\"", "a``b", "''", "\"\"", "\\n", "\\x41", "\\0", "x\\", "%s", "\r\n", "ünï\xc3", "\xe2\x28\xa1", "0x", "1e", "SELECT", "select * from t",
+	"\u2018", "\u2019", "\u201c", "\u201d", "x\u2019 or b == \u2018y", "\u201d or \u201c", "\uff07", "\u00b4", "\u02bc", "a\u2019", "\u2018a",
 	"a'b\"c`d\\e", "'''", "\"\"\"", "```", "\\\\\\", "\\'\\\"\\`", "end*/ x /*", "x'--", "x\"--", "x`--", ") AS \"y\", (", "\x00'", "'\x00",
 }
 
@@ -320,6 +324,11 @@ func generate(w *mon.W) {
 				}
 				c := &Case{Skel: sk.name, Kind: "id", Fill: f}
 				w.Do(fmt.Sprintf("%s|%s", sk.name, f), func(r *mon.R) { Check(c, r) })
+			}
+			// plain names that are also bound by lets written before the query
+			for _, f := range []string{"a", "t", "n", "T", "k", "x1", "_u", "count", "title", "null", "true", "stacked"} {
+				c := &Case{Skel: sk.name, Kind: "id", Fill: f, Bound: true}
+				w.Do(fmt.Sprintf("%s|bound|%s", sk.name, f), func(r *mon.R) { Check(c, r) })
 			}
 			// names that look like the compiler's own (generated subquery names,
 			// join aliases, render columns, built-ins) followed by hostile content
@@ -462,6 +471,12 @@ func compileWith(sk *skel, c *Case, fill string) (*compiled, string) {
 		h = Num(fill)
 	}
 	prog := sk.mk(h, id)
+	if c.Bound {
+		// the binding always has the name of the case's own content, so that the
+		// reference compilation (content "a") differs only in the quoted name
+		lets := []*Stmt{{LetName: &Ident{Name: c.Fill}, LetX: Un("-", Num("5"))}, {LetName: &Ident{Name: "a"}, LetX: StrLit("bound", false)}}
+		prog = &Program{Stmts: append(lets, prog.Stmts...)}
+	}
 	pr := Print(prog, Layout{Mode: 0})
 	out := &compiled{src: pr.Src}
 	for _, st := range prog.Stmts {
